@@ -156,6 +156,13 @@ def run(ctx: Ctx) -> None:
     ctx.call(is_occupied_rule, "6")
     ctx.call(reentrancy_rule, "7")
     ctx.call(occupied_bounce, "8")
+    from ..kinds import signature_defaults
+
+    ctx.call(signature_defaults, "11", {
+        "cartgraph/node.py:TestNode.is_started": {"worker": "None", "threshold": "1"},
+        "cartgraph/node.py:TestNode.is_finished": {"worker": "None", "threshold": "1"},
+        "cartgraph/node.py:TestNode.is_occupied": {"worker": "None"},
+    }, "occupation and finished tests are eager (one worker suffices) unless a caller asks otherwise")
     ctx.call(T.t_o1, "9/T.O1")
     from . import graphrules as GR
 
